@@ -293,9 +293,20 @@ GROUPS = {
         nontrivial='queues with at least one multi-segment batch',
         functions=['RelayTransport::{poll_recv, poll_recv_queue}', 'Datagrams::take_segments'],
     ),
+    # C05: phase (d) of the registry unit — what a client sends never costs another client its connection
+    'relay_forward_bx': dict(
+        unit='relay_registry.rs', props=['C05'],
+        bounds=dict(quick=['4', '3'], thorough=['5', '3']),
+        space='(second argument {1}: phase d) every history of at most {0}+2 operations from 10 — connects of a sender, a receiver and a second sender, packets sender->receiver, '
+              'second sender->receiver, receiver->sender and to an endpoint that is not connected, draining the receiver\'s queue (capacity 2), the receiver\'s actor ending, its '
+              'unregistering; after every send: no live connection of another endpoint is asked to shut down or leaves the registry, its queue only grows, and the send returns '
+              'forwarded / dropped / refused(full) / refused(closed) as the registry state implies',
+        nontrivial='histories with at least three sends',
+        functions=['Clients::{register, unregister, send_packet}', 'Client::{try_send_packet, start_shutdown}'],
+    ),
     # second line behind the Verus unit builder_bind
     'builder_bind_bx': dict(
-        unit='builder_bind.rs', props=['C20'],
+        unit='builder_bind.rs', props=['C20'], takes_deferred=True,
         bounds=dict(quick=['3', '0'], thorough=['4', '0']),
         space='every multiset of at most {0} bind calls over 20 (family, prefix length, explicit default flag, is_required) combinations — implicit default (/0), '
               'non-default (/24), explicit default, explicit non-default /0, invalid prefix, full-length explicit default, for IPv4 and IPv6 — each in EVERY order',
@@ -378,6 +389,16 @@ def run_group(g, prop, tier='quick', only=None):
                         std_imported.add(name)
                         extra_tail += f'\nuse {path};   // imported by the source file; a change started using it\n'
                         std_added = True
+            # ... or rely on a conversion (`impl From<..> for T`) that the change added next to the code under test
+            for dd in diags:
+                text = dd.get('message', '') + ' ' + (dd.get('rendered') or '')
+                for tname in set(re.findall(r'`(\w+): From<', text)) | set(re.findall(r'\b(\w+)::from\b', text)):
+                    for blk in from_impls_for(tname, regions):
+                        key = hashlib.sha256(blk.encode()).hexdigest()
+                        if key not in std_imported:
+                            std_imported.add(key)
+                            extra_tail += '\n// conversion added by a change, taken verbatim from the source file\n' + blk + '\n'
+                            std_added = True
             if std_added and _round < 3:
                 continue
             if not missing or _round == 3:
@@ -490,6 +511,29 @@ def std_import_for(name, regions):
         if name in out:
             return out[name]
     return None
+
+
+def from_impls_for(tname, regions):
+    """verbatim `impl<..> From<..> for <tname> {..}` blocks found in the source files of the extracted functions"""
+    out = []
+    files = {r.info['src_file'] for r in regions if r.kind == 'fn' and r.info.get('src_file')}
+    for rel in sorted(files):
+        try:
+            txt = open(os.path.join(extract.REPO, rel), encoding='utf-8').read()
+        except OSError:
+            continue
+        for m in re.finditer(r'^impl\s*(?:<[^>{]*>)?\s*From<[^{]*>\s*for\s+' + re.escape(tname) + r'\b[^{]*\{', txt, re.M):
+            depth, i = 0, m.end() - 1
+            while i < len(txt):
+                if txt[i] == '{':
+                    depth += 1
+                elif txt[i] == '}':
+                    depth -= 1
+                    if depth == 0:
+                        break
+                i += 1
+            out.append(txt[m.start():i + 1])
+    return out
 
 
 def run_cargo_group(g, d, res, work, tier, only, t0):
